@@ -4,6 +4,7 @@ import os
 import vlib
 
 META = {
+    "coq_targets": ["Tie/StorageTie.vo"],
     "trusted_base": [
         "hand-written Gallina transcription of pkg/storage and seekablebuffer.Buffer (Model/Storage.v), tied to /repo by this correspondence run",
         "OS oracle: POSIX pwrite zero-fills holes, Truncate pads/cuts, unlinked files stay readable through open descriptors",
